@@ -39,6 +39,9 @@ import (
 
 // c14Prog is one input of the C14 universe.
 type c14Prog struct {
+	histRan, histWrote, histSame bool
+	histExit, histLen            int
+	histOther                    string
 	Family   string
 	Name     string                       // one-line witness
 	Pre      string                       // canonical precondition
@@ -591,11 +594,13 @@ func runC14Prog(we *wireEnv, p *c14Prog, i int) {
 	if len(p.expectedSets()) > 0 {
 		// nothing to do
 	} else if mustOK(os.WriteFile(outPath, prevLong, 0o644)); false {
-	} else if bl, ok := run(0); p.exit[0] != 0 || !ok {
-		p.add("exit-status-differs-between-runs", "valid-input", fmt.Sprintf("with a previous (longer) output file in place the run exited %d (file present: %v)", p.exit[0], ok), nil)
+	} else {
+		// judged after the bulk compilation: a previous output that does not compile in the package (a known defect
+		// for some inputs) is a legitimate reason for migrate to refuse the package
+		bl, ok := run(0)
+		p.histRan, p.histExit, p.histWrote, p.histSame, p.histLen = true, p.exit[0], ok, ok && sumOf(bl) == p.sums[0], len(bl)
+		p.histOther = string(bl)
 		p.exit[0] = 0
-	} else if sumOf(bl) != p.sums[0] {
-		p.add("history-dependent-output", "previous-longer-output", fmt.Sprintf("a previous output file that is longer than the new result is not replaced completely: %d bytes written over %d, result %d bytes", len(b0), len(prevLong), len(bl)), map[string]any{"other_output": string(bl)})
 	}
 	// gofmt
 	if f, err := format.Source(b0); err != nil {
@@ -756,6 +761,14 @@ func runC14(args []string) {
 					kind = "harness-input-does-not-compile" // the diagnostic is not in the migrated file: our own sources are broken
 				}
 				p.add(kind, c14Diag(d), "the package does not compile with the wire files set aside and the migrated file added: "+d, map[string]any{"compiler": msg})
+			}
+			if _, bad := errs[p.id]; !bad && p.histRan {
+				switch {
+				case p.histExit != 0 || !p.histWrote:
+					p.add("exit-status-differs-between-runs", "valid-input", fmt.Sprintf("with a previous (longer, compiling) output file in place the run exited %d (file present: %v)", p.histExit, p.histWrote), nil)
+				case !p.histSame:
+					p.add("history-dependent-output", "previous-longer-output", fmt.Sprintf("a previous output file that is longer than the new result is not replaced completely: the result has %d bytes instead of %d", p.histLen, len(p.out)), map[string]any{"other_output": p.histOther})
+				}
 			}
 			if len(samples) < 4 && succeeded%173 == int(rc.Seed%173)+1 {
 				samples = append(samples, map[string]any{"family": p.Family, "input": p.Name, "output": p.out, "sha256_runs": p.sums})
